@@ -91,17 +91,30 @@ def _ids(e):
     return e.get('id')
 
 
-def h_jigg(d, n, nlex, which, alen, nbest):
+def h_jigg(d, n, nlex, which, alen, nbest, second=False):
     from depccg.tree import ScoredTree
     from depccg.printer.jigg_xml import to_jigg_xml
     from depccg.tools import reader
     from depccg.lang import set_global_language_to
     from depccg.semantics.ccg2lambda import ccg2lambda_tools as ct
     set_global_language_to('ja')
-    t = c19.gen_derivation(d, 'ja', n, nlex, lambda dd, i: ja_token(dd, i, which, alen))
+    toks = {}
+
+    def tokfn(dd, i):        # the trees of one n-best list share the sentence's token objects
+        if i not in toks:
+            toks[i] = ja_token(d, i, which, alen)
+        return toks[i]
+    t = c19.gen_derivation(d, 'ja', n, nlex, tokfn)
     if t is None:
         return True
-    parsed = [ScoredTree(t, -1.0)] + ([ScoredTree(t, -3.0)] if nbest > 1 else [])
+    t_second = t
+    if second:
+        from engines.pysym.explore import Prefixed
+        t_second = c19.gen_derivation(Prefixed(d, 'second.'), 'ja', n, nlex, tokfn)      # another derivation over the same tokens
+        if t_second is None:
+            return True
+    parsed = [ScoredTree(t, -1.0)] + ([ScoredTree(t_second, -3.0)] if nbest > 1 else [])
+    expected = [t] + ([t_second] if nbest > 1 else []) + [t]
     root = to_jigg_xml([parsed, [ScoredTree(t, -2.0)]], use_symbol=True)
     sents = root[0][0].xpath('sentence')
     if len(sents) != 2:
@@ -116,7 +129,8 @@ def h_jigg(d, n, nlex, which, alen, nbest):
         if len(ccgs) != (nbest if s_i == 0 else 1):
             return ('jigg.ccg-count', len(ccgs))
         all_span_ids = []
-        for ccg in ccgs:
+        for c_i, ccg in enumerate(ccgs):
+            t_exp = t_second if (s_i == 0 and c_i == 1) else t
             spans = ccg.xpath('./span')
             ids = [x.get('id') for x in spans]
             all_span_ids += ids
@@ -160,7 +174,7 @@ def h_jigg(d, n, nlex, which, alen, nbest):
                     if r:
                         return r
                 return None
-            why = iso(t, built)
+            why = iso(t_exp, built)
             if why:
                 return ('ccg2lambda.built-tree-differs.' + why,)
         if len(set(all_span_ids)) != len(all_span_ids):
@@ -186,11 +200,11 @@ def h_jigg(d, n, nlex, which, alen, nbest):
         return ('jigg.read-raises:' + type(e).__name__, sym_str(e))
     if len(res) != nbest + 1:
         return ('jigg.read-count', len(res))
-    for r in res:
-        why = trees.same_structure(t, r.tree, heads=False)
+    for r, t_exp in zip(res, expected):
+        why = trees.same_structure(t_exp, r.tree, heads=False)
         if why:
             return ('jigg.tree-differs.' + why,)
-        for a, b in zip(t.leaves, r.tree.leaves):
+        for a, b in zip(t_exp.leaves, r.tree.leaves):
             if b.token['word'] != a.token['word']:
                 return ('jigg.word-differs',)
     return True
@@ -232,6 +246,10 @@ def obligations(tier):
                     continue
                 yield Obligation('C15.jigg[n=%d,lexicon=%d,%s=%d,nbest=%d]' % (n, min(nlex, 8), which, alen, nbest), 'h_jigg',
                                  dict(n=n, nlex=min(nlex, 8), which=which, alen=alen, nbest=nbest), cost=n * n * 6)
+        if n <= 2:      # a 2-best list whose second tree is another derivation over the same tokens (other lexical categories, other rules)
+            nl2 = (6 if n == 1 else 4) if q else (8 if n == 1 else 5)
+            yield Obligation('C15.jigg[n=%d,lexicon=%d,nbest=2,second tree differs]' % (n, nl2), 'h_jigg',
+                             dict(n=n, nlex=nl2, which=None, alen=0, nbest=2, second=True), cost=n * n * 30)
     yield Obligation('C15.xml[n=2,lexicon of the listed special rules]', 'h_xml', dict(n=2, nlex='special', which=None, alen=0), cost=10)
     for n in ((1, 2, 3) if q else (1, 2, 3, 4)):
         yield Obligation('C15.normalize[len=%d]' % n, 'h_normalize', dict(n=n), cost=n * 3)
